@@ -342,6 +342,7 @@ PROPS['C17'] = {
         thm('EmmetProps.C17_select_prev', 'select_item_html previous = an open / self-closing tag starting before the position', partial=True),
         thm('EmmetProps.C17_class_tokens', 'all values / offsets: class-token ranges are non-empty and inside the value', partial=True),
         thm('EmmetProps.C16_html_scan', 'the tags those helpers choose from are in-range slices `<…>` of the source, in order'),
+        thm('EmmetProps.C17_css_section', 'get_css_section for EVERY source and position: the reported rule contains the position, lies inside the source, body between its braces (0 <= start <= pos <= end <= len, 0 <= body_start <= body_end <= end)', partial=True),
         thm('EmmetProps.C17_css_select_next', 'every source, every position: the item select_item_css (next) returns lies inside the source and its full / value / value-token ranges lie inside the item', partial=True),
         thm('EmmetProps.C17_css_select_prev', 'the same for select_item_css (previous)', partial=True),
     ],
